@@ -400,6 +400,45 @@ exactly once (monomials of degree l / `c0, c1, s1, …, cl, sl`), and no key occ
 theorem tables_wellformed : Iodata.Gen.Conventions.allTables.all (fun t => wellFormedTable t.2) = true := by
   decide +kernel
 
+/-! ### the two generated default tables, all angular momenta -/
+
+/-- Cartesian functions of degree `l` in alphabetical order (`iter_cart_alphabet`): `x^nx y^ny z^nz`, `nx` descending,
+then `ny` descending. -/
+def cartAlphabet (l : Nat) : List Label :=
+  (List.range (l + 1)).reverse.flatMap fun nx =>
+    (List.range (l - nx + 1)).reverse.map fun ny =>
+      List.replicate nx 'x' ++ List.replicate ny 'y' ++ List.replicate (l - nx - ny) 'z'
+
+/-- decimal digits of `n` (labels such as `c10`, `s24`) -/
+def numChars (n : Nat) : List Char := (Nat.toDigits 10 n)
+
+/-- HORTON2 pure functions: `c0, c1, s1, …, cl, sl` -/
+def horton2Pure (l : Nat) : List Label :=
+  ['c', '0'] :: (List.range l).flatMap fun i => ['c' :: numChars (i + 1), 's' :: numChars (i + 1)]
+
+/-- CCA pure functions: `sl, …, s1, c0, c1, …, cl` (m = −l … l) -/
+def ccaPure (l : Nat) : List Label :=
+  ((List.range l).reverse.map fun i => 's' :: numChars (i + 1)) ++ [['c', '0']]
+    ++ (List.range l).map fun i => 'c' :: numChars (i + 1)
+
+/-- a default table up to `lmax`: `(0,c) = [1]`, `(1,c)`, and for `l ≥ 2` the Cartesian and the pure entry -/
+def defaultTable (pure : Nat → List Label) (lmax : Nat) : Table :=
+  ((0, 'c'), [['1']]) :: (List.range lmax).flatMap fun i =>
+    let l := i + 1
+    if l = 1 then [((1, 'c'), cartAlphabet 1)] else [((l, 'c'), cartAlphabet l), ((l, 'p'), pure l)]
+
+/-- **default_tables_closed_form.**  `HORTON2_CONVENTIONS` and `CCA_CONVENTIONS` as the module builds them (regenerated
+from the imported module on every run, every angular momentum 0..24) are exactly their closed forms: alphabetical
+Cartesian monomials, `c0 c1 s1 … cl sl` resp. `sl … s1 c0 c1 … cl` — in particular every entry is complete (2l+1 resp.
+(l+1)(l+2)/2 functions) for two-digit `l` as well. -/
+theorem default_tables_closed_form :
+    Iodata.Gen.Conventions.horton2Full = defaultTable horton2Pure 24 ∧
+    Iodata.Gen.Conventions.ccaFull = defaultTable ccaPure 24 := by
+  decide +kernel
+
+example : ccaPure 2 = [['s','2'], ['s','1'], ['c','0'], ['c','1'], ['c','2']] ∧ (ccaPure 10).length = 21 ∧
+    (cartAlphabet 24).length = 325 := by decide +kernel
+
 /-- 7b. For every ordered pair of built-in tables and every key they share, the shell conversion
 succeeds in both directions. -/
 theorem tables_pairwise :
